@@ -12,6 +12,7 @@ def symOutcome : Char → Option Outcome
   | 'e' => some (.err .eof) | 'u' => some (.err .unexpectedEOF) | 'g' => some (.err .noProgress)
   | 'c' => some (.err .closedPipe) | 'b' => some (.err .shortBuffer) | 'd' => some (.err .ebadf)
   | 'f' => some (.err .closedFile) | 'w' => some (.err .wrappedEOF) | 'x' => some (.err .other)
+  | 'p' => some (.err .afPoll)
   | _ => none
 
 def showRecv (r : Result) : String :=
